@@ -66,6 +66,17 @@ def to_open_api_3_0(schema: JsonSchema) -> Dict[str, Any]:
             )
         else:
             result["type"] = result["type"][0]
+    # exclusiveMinimum / exclusiveMaximum are boolean modifiers of minimum / maximum
+    for exclusive, bound, stricter in (
+        ("exclusiveMinimum", "minimum", max),
+        ("exclusiveMaximum", "maximum", min),
+    ):
+        if isinstance(result.get(exclusive), (int, float)) and not isinstance(
+            result[exclusive], bool
+        ):
+            value = result.pop(exclusive)
+            if bound not in result or stricter(result[bound], value) == value:
+                result[bound], result[exclusive] = value, True
     if "examples" in result:
         result.setdefault("example", result.pop("examples")[0])
     if "const" in result:
